@@ -4,7 +4,7 @@ import Emmet.Matcher.CssScan
 namespace C
 
 def EvOK (n : Int) (e : Ev) : Prop :=
-  0 ≤ e.start ∧ e.start ≤ e.stop ∧ e.stop ≤ n ∧ (e.delimiter = -1 ∨ (0 ≤ e.delimiter ∧ e.delimiter < n))
+  0 ≤ e.start ∧ e.start ≤ e.stop ∧ e.stop ≤ n ∧ (e.delimiter = -1 ∨ (0 ≤ e.delimiter ∧ e.delimiter < n ∧ e.stop ≤ e.delimiter + 1))
 
 /-- scanner state invariant at position `pos` -/
 def Inv (st : ScanState) (pos : Int) : Prop :=
@@ -228,6 +228,37 @@ theorem start_set (st : ScanState) (pos p : Int) (hp : 0 ≤ pos) (hpp : pos ≤
       · exact Or.inl h2
       · exact Or.inr ⟨h2.1, by omega⟩
 
+/-- the property-colon step keeps the invariant -/
+theorem colonState_inv (st : ScanState) (pos : Int) (h0 : 0 ≤ pos) (hinv : Inv st pos) : Inv (colonState st (pos + 1)) (pos + 1) := by
+  unfold colonState
+  obtain ⟨h1, h2, h3, h4⟩ := hinv
+  simp only [Inv]
+  refine ⟨Or.inl (by simp), Or.inr ⟨by omega, by omega⟩, ?_, fun h => absurd rfl h⟩
+  by_cases hps : (st.propertyStart == -1) = true
+  · have hps' : st.propertyStart = -1 := by simpa using hps
+    simp only [hps, if_true]
+    by_cases hs : st.start = -1
+    · left; exact hs
+    · right
+      rcases h1 with h1 | h1
+      · exact absurd h1.1 hs
+      · have hst : (st.stop != -1) = true := by simp; omega
+        simp only [hst, if_true]; omega
+  · have hps' : st.propertyStart ≠ -1 := by simpa using hps
+    simp only [hps, Bool.false_eq_true, if_false]
+    right
+    rcases h3 with h3 | h3
+    · exact absurd h3 hps'
+    · by_cases hst : (st.stop != -1) = true
+      · simp only [hst, if_true]
+        have hst' : st.stop ≠ -1 := by simpa using hst
+        rcases h1 with h1 | h1
+        · exact absurd h1.2 hst'
+        · have := h4 (by omega); omega
+      · simp only [hst, Bool.false_eq_true, if_false]
+        have hpsb : (st.propertyStart != -1) = true := by simpa using hps'
+        simp only [hpsb, if_true]; omega
+
 theorem scanLoop_ok (n : Int) : ∀ (fuel : Nat) (rest : Str) (pos : Int) (st : ScanState) (acc : List Ev),
     pos + rest.length = n → 0 ≤ pos → Inv st pos → (∀ e ∈ acc, EvOK n e) →
     (∀ e ∈ (scanLoop fuel rest pos st acc).1, EvOK n e) ∧ Inv (scanLoop fuel rest pos st acc).2.1 (scanLoop fuel rest pos st acc).2.2 ∧
@@ -289,34 +320,7 @@ theorem scanLoop_ok (n : Int) : ∀ (fuel : Nat) (rest : Str) (pos : Int) (st : 
                     obtain ⟨e1, e2, e3⟩ := eatOne_ok (spanColon xs 0).1 (pos + 1 + ((spanColon xs 0).2 : Int)) _ (by omega) a b c d
                     exact ih _ _ _ acc (by omega) (by omega) e3 hacc
                   · simp only [hcol, if_false]
-                    refine ih xs (pos + 1) _ acc hlen (by omega) ?_ hacc
-                    obtain ⟨h1, h2, h3, h4⟩ := hinv
-                    simp only [Inv]
-                    refine ⟨Or.inl (by simp), Or.inr ⟨by omega, by omega⟩, ?_, fun h => absurd rfl h⟩
-                    by_cases hps : (st.propertyStart == -1) = true
-                    · have hps' : st.propertyStart = -1 := by simpa using hps
-                      simp only [hps, if_true]
-                      by_cases hs : st.start = -1
-                      · left; exact hs
-                      · right
-                        rcases h1 with h1 | h1
-                        · exact absurd h1.1 hs
-                        · have hst : (st.stop != -1) = true := by simp; omega
-                          simp only [hst, if_true]; omega
-                    · have hps' : st.propertyStart ≠ -1 := by simpa using hps
-                      simp only [hps, Bool.false_eq_true, if_false]
-                      right
-                      rcases h3 with h3 | h3
-                      · exact absurd h3 hps'
-                      · by_cases hst : (st.stop != -1) = true
-                        · simp only [hst, if_true]
-                          have hst' : st.stop ≠ -1 := by simpa using hst
-                          rcases h1 with h1 | h1
-                          · exact absurd h1.2 hst'
-                          · have := h4 (by omega); omega
-                        · simp only [hst, Bool.false_eq_true, if_false]
-                          have hpsb : (st.propertyStart != -1) = true := by simpa using hps'
-                          simp only [hpsb, if_true]; omega
+                    exact ih xs (pos + 1) _ acc hlen (by omega) (colonState_inv st pos h0 hinv) hacc
               · simp only [h58, Bool.false_eq_true, if_false]
                 obtain ⟨a, b, c, d⟩ := start_set st pos pos h0 (by omega) hinv
                 obtain ⟨e1, e2, e3⟩ := eatOne_ok (x :: xs) pos _ h0 a b c d
